@@ -16,7 +16,7 @@ import export_schema
 from core import MachineryError
 
 STATIC = ["MinDocAccepted", "ChildNamedAfterClass", "FoundByTag", "NoDuplicateTags", "GroupsWellFormed",
-          "GroupsInForce", "ListRunsTellMembersApart", "ListElementsInElementList"]
+          "GroupsInForce", "ListRunsTellMembersApart", "ListElementsInElementList", "DeclarationsWellFormed"]
 
 
 def sample(types, tid):
@@ -157,17 +157,28 @@ def run(ctx):
             if j - i > 1:
                 kids[i:j] = kids[i:j][::-1]
             i = max(j, i + 1)
-        for variant, vnode in (("", node), (" reversed", rev)):
+        # ... and a member repeated with another one in between (first, second, first): fine for most classes, refused where
+        # a class wants its members distinct - wherever they stand
+        rep = None
+        laggs_ = [a for a in attrs if a["k"] == "lagg" and a["cls"] in mins]
+        one_run = all(attrs[i]["k"] in ("lagg", "lelem", "unsup") for i in range(li[0], li[-1] + 1))
+        if len(laggs_) >= 2 and one_run:       # (members of separated runs are written run by run: no interleaving to keep)
+            idx_ = {x["tag"]: i for i, x in enumerate(attrs)}
+            base_kids = [k for k in copy.deepcopy(mins[cls])[2] if k[0] not in ltags]
+            mem = [copy.deepcopy(mins[laggs_[0]["cls"]]), copy.deepcopy(mins[laggs_[1]["cls"]]), copy.deepcopy(mins[laggs_[0]["cls"]])]
+            pos = len([k for k in base_kids if idx_.get(k[0], 10 ** 6) < li[0]])
+            rep = [cls, None, base_kids[:pos] + mem + base_kids[pos:]]
+        for variant, vnode in (("", node), (" reversed", rev)) + (((" member repeated apart", rep),) if rep else ()):
             doc = dc.from_nested(vnode)
             label = "%s.<all-list-children%s>" % (cls, variant)
-            e = dc.ev_doc("q%d%s" % (nprobe, variant[1:2]), doc, schema, route="etree", label=label, expect="")
+            e = dc.ev_doc("q%d%s" % (nprobe, variant[1:3].strip()), doc, schema, route="etree", label=label, expect="")
             evs.append(e)
             if e["out"]["ok"]:
                 from ofxtools.models.base import Aggregate
                 inst = Aggregate.from_etree(dc.to_etree(doc))
                 try:
                     doc2 = dc.etree_to_doc(inst.to_etree())
-                    evs.append(dc.ev_doc("q%d%sw" % (nprobe, variant[1:2]), doc2, schema, route="etree", label=label + " rewritten", expect="accept",
+                    evs.append(dc.ev_doc("q%d%sw" % (nprobe, variant[1:3].strip()), doc2, schema, route="etree", label=label + " rewritten", expect="accept",
                                          twin=e["out"]["inst"]))
                 except Exception as ex:
                     ctx.fail({"clause": "probe-write", "class": cls, "child": "<all-list-children>", "what": "to_etree failed for %s: %r" % (label, ex)})
